@@ -176,6 +176,10 @@ func genC06(g GenCtx) interface{} {
 	}
 	released := !sc.HoldFirstList
 	n := rng.Intn(40)
+	if rng.Intn(20) == 0 {
+		n = 150 + rng.Intn(250) // many refilters / writes on the same nodes
+		sc.Sim.MaxSteps = 1500000
+	}
 	inflight := 0
 	for i := 0; i < n; i++ {
 		switch r := rng.Intn(10); {
@@ -257,6 +261,10 @@ func genC10(g GenCtx) interface{} {
 	in := 0
 	for i := 0; i < total; i++ {
 		sc.Acts = append(sc.Acts, writeAct(rng, nkeys))
+		if len(b.filtered) > 0 && rng.Intn(6) == 0 {
+			// a Refilter is a batch of events: it must not block on (or be torn by) a nearly full consumer buffer
+			sc.Acts = append(sc.Acts, TAct{Op: "refilter", Node: b.filtered[rng.Intn(len(b.filtered))], Filter: randFilter(rng), Async: rng.Intn(2) == 0})
+		}
 		in++
 		if in >= burst {
 			sc.Acts = append(sc.Acts, TAct{Op: "settle"})
@@ -368,7 +376,7 @@ func genC12(g GenCtx) interface{} {
 	nkeys := 1 + rng.Intn(4)
 	sc.Init = genInit(rng, nkeys)
 	sc.Faults = map[string]world.Fault{}
-	for _, k := range []string{"watch-connect-error", "watch-connect-hang", "watch-connect-delay", "watch-close-mid", "watch-close-idle", "list-hang"} {
+	for _, k := range []string{"watch-connect-error", "watch-connect-timeout", "watch-connect-hang", "watch-connect-delay", "watch-close-mid", "watch-close-idle", "list-hang"} {
 		if rng.Intn(4) == 0 {
 			sc.Faults[k] = world.Fault{Budget: 1 + rng.Intn(2), Denom: 2 + rng.Intn(4)}
 		}
@@ -419,7 +427,7 @@ func genC12(g GenCtx) interface{} {
 
 // ---------------------------------------------------------------- C14
 
-var listFailKinds = []string{"error", "nonlist", "nonobjects", "noitems", "nil"}
+var listFailKinds = []string{"error", "error-timeout", "nonlist", "nonobjects", "noitems", "nil"}
 
 func genC14(g GenCtx) interface{} {
 	sc, rng := baseTree(g)
@@ -442,7 +450,7 @@ func genC14(g GenCtx) interface{} {
 	default:
 		// watch failures of every kind, never fatal
 		sc.Faults = map[string]world.Fault{}
-		for _, k := range []string{"watch-connect-error", "watch-close-mid", "watch-close-after-burst", "watch-close-idle", "watch-status-frame", "watch-bookmark", "watch-badobj", "watch-drop", "watch-dup"} {
+		for _, k := range []string{"watch-connect-error", "watch-connect-timeout", "watch-connect-canceled-error", "watch-close-mid", "watch-close-after-burst", "watch-close-idle", "watch-status-frame", "watch-bookmark", "watch-badobj", "watch-drop", "watch-dup"} {
 			if rng.Intn(2) == 0 {
 				sc.Faults[k] = world.Fault{Budget: 1 + rng.Intn(3), Denom: 2 + rng.Intn(3)}
 			}
